@@ -412,7 +412,7 @@ def static_addresses(universe):
     return out
 
 
-def regenerate_specs(node: Node, universe, tier: str):
+def regenerate_specs(node: Node, universe, tier: str, state=None, args_alphabet=None):
     sas = static_addresses(universe)
     sels = [("none",), ("all",)]
     for a in sas[: (2 if tier == "quick" else 5)]:
@@ -425,6 +425,12 @@ def regenerate_specs(node: Node, universe, tier: str):
     out = []
     for s in sels:
         out.append(Spec("regenerate", selection=s, tags="nochange", label="regen"))
+    # Regenerate together with an argument change
+    if state is not None and args_alphabet:
+        other = [a for a in args_alphabet if args_key(a) != args_key(state.args)]
+        for a in other[:1]:
+            for s in sels[1:3]:
+                out.append(Spec("regenerate", selection=s, new_args=a, tags="unknown", label="regen+argchange"))
     return out
 
 
